@@ -867,6 +867,13 @@ class _ProbeContextInjectorNode(_ProbeNode):
         else:
             _ContextObserver.update_context(context, self.context_key, probe_result)
 
+        # A parametric-sweep probe also publishes its materialised variable sequences
+        created = getattr(self.processor, "_last_created_sequences", None)
+        if isinstance(created, dict):
+            for key, value in created.items():
+                if key != self.context_key:
+                    _ContextObserver.update_context(context, key, value)
+
         return Payload(data, context)
 
 
